@@ -12,5 +12,8 @@ for f in sorted(glob.glob(os.path.join(root, 'known', '*', 'findings.json'))):
         if e.get('replay'):
             assert os.path.exists(os.path.join(root, e['replay'])), (f, e['replay'])
         out.append(e)
-json.dump({'findings': out}, open(os.path.join(root, 'known_findings.json'), 'w'), indent=1, ensure_ascii=False)
+tmp = os.path.join(root, 'known_findings.json.tmp')
+with open(tmp, 'w') as fh:
+    json.dump({'findings': out}, fh, indent=1, ensure_ascii=False)
+os.replace(tmp, os.path.join(root, 'known_findings.json'))  # atomic: running checks never see a partial file
 print(len(out), 'findings')
